@@ -495,7 +495,13 @@ func (p *Prop[C]) Enumerate(t *testing.T, iter func(yield func(C) bool)) {
 		}
 		cs.Requested++
 		raw := mustJSON(c)
+		if p.Journal || Race() {
+			os.WriteFile(journalPath(), mustJSON(replayDoc{Property: p.ID, Check: p.Name, Sig: p.ID + "/crash/" + p.Name, Msg: "process died while running this case", Case: raw}), 0o644)
+		}
 		v := p.exec(c)
+		if p.Journal || Race() {
+			os.Remove(journalPath())
+		}
 		var classes []string
 		if p.Classes != nil {
 			classes = p.Classes(c)
